@@ -26,7 +26,7 @@ def run(tier, seed):
     chk = Check('C03', tier, seed, 'model_checking')
     rng = random.Random(seed * 7919 + 3)
     quick = tier != 'thorough'
-    ngen = 14 if quick else 120
+    ngen = 14 if quick else 40
     base = []
     for name, src, args in runner.corpus_programs(('example', 'ok')):
         if 'str' in src or 'raw' in src:
@@ -42,12 +42,12 @@ def run(tier, seed):
         if inrange:
             unsafe_ok.add('gen:%d' % s)
     boundary = {}
-    for i in range(6 if quick else 30):
+    for i in range(6 if quick else 16):
         s = rng.randrange(1 << 30)
         p, src = genprog.gen_boundary_program(s)
         base.append(('boundary:%d' % s, src, ['-O1']))
         boundary[src] = p['outs'][0]['size']
-    for i in range(5 if quick else 30):
+    for i in range(5 if quick else 16):
         s = rng.randrange(1 << 30)
         base.append(('life:%d' % s, genprog.gen_lifecycle_program(s)[1], [rng.choice(['-O1', '-O2', '-O3'])]))
     items = []
@@ -105,6 +105,12 @@ def run(tier, seed):
                     continue
                 done.add(r['kind'])
                 if r['kind'] == 'UB' and 'unsafe' in ' '.join(p.args) and 'index' in str(r.get('why', '')):
+                    continue
+                why = str(r.get('why', ''))
+                if r['kind'] == 'UB' and not any(k in why for k in ('null', 'freed', 'memcpy', 'beyond')):
+                    # undefined *arithmetic* of a user expression (shift count, signed overflow, division by zero) is outside this
+                    # property and invisible to the memory sanitizers: only memory-related reports are replayed
+                    kinds['UB(arithmetic, ignored)'] += 1
                     continue
                 steps_, status = mc.replay_hist(p, r['hist'], p.bin_san)
                 if r['kind'] == 'UB':
